@@ -70,15 +70,23 @@ ASSUMPTIONS = [
     "construction; judged by definition); references that are undefined or not finite (fewer "
     "than 3 valid events for the product kernel, fewer than 2 for gaussian_kde, zero/undefined "
     "Doane width, nearly constant axes where the skewness is rounding noise, overflowing "
-    "ranges, bin/grid numbers on a rounding boundary, grids with < 2 points for the quantile "
-    "claim); kde type 'none' (no estimator; twin/poison only); a singular Gaussian KDE is nan "
-    "as documented; a mode whose binning has a value on a rounding boundary when it differs",
+    "ranges, histogram bins narrower than 1e-9 of the axis magnitude, bin/grid numbers on a "
+    "rounding boundary, grids with < 2 points for the quantile claim); kde type 'none' (no "
+    "estimator; twin/poison only); a singular Gaussian KDE is nan as documented; a mode whose "
+    "binning has a value on a rounding boundary when it differs",
+    "density tolerance 1e-8 relative to max(|reference|, peak of the reference; for the "
+    "histogram spline: the histogram maximum); quantile claim with 1/n granularity, a float "
+    "tolerance of 1e-9 of the density scale, and events within 1e-12 of the border of the "
+    "contour grid counted in the more favourable of the two readings (inside / outside: on a "
+    "log scale exp(log(v)) moves the border by an ulp)",
     "get_downsampled_scatter is only called with 0 or 1 <= request <= number of valid points "
     "and without a zero-range / overflowing axis (D07/D08 of property C16 live in a .pyx "
     "that cannot be rebuilt); other requests are counted as skipped",
     "when dclab raises on the dataset, the twin and the poisoned copy must raise the same "
     "exception type; an exception where the reference estimator is defined and finite is a "
     "violation of '.reference'",
+    "the poisoned copy always holds float64 columns (nan cannot be stored in the unsigned "
+    "integer columns of an .rtdc file); the twin keeps the stored dtype",
 ]
 MIN_EVALS = {"statistics.definition": 30000, "statistics.twin": 1000, "statistics.poison": 800,
              "kde_scatter.reference": 1500, "kde_scatter.twin": 2500, "kde_scatter.poison": 2000,
@@ -333,7 +341,7 @@ def _judge_scatter(ctx, rec):
     finding = None
     if problem is not None and kde == "multivariate" and pos is not None:
         finding = _two_positions_explains(x, y, p["xscale"], p["yscale"], pos[0], pos[1],
-                                          p["kde_kwargs"], got)
+                                          p["kde_kwargs"], got, _peak(want))
     elif problem is not None and kde == "multivariate" and p["xscale"] == p["yscale"] == "linear":
         pred = K.predict_unsigned_wrap_defect(x, y, p["kde_kwargs"])
         with np.errstate(all="ignore"):
@@ -353,8 +361,16 @@ def _judge_scatter(ctx, rec):
         _S.case_info["_compared"] = True
 
 
-def _two_positions_explains(x, y, xscale, yscale, px, py, kwargs, got):
-    """Executable defect model of M_TWO_POSITIONS: does it reproduce the observed output?"""
+def _peak(a):
+    a = np.asarray(a, dtype=np.float64)
+    a = a[np.isfinite(a)]
+    return float(np.max(np.abs(a))) if a.size else 0.0
+
+
+def _two_positions_explains(x, y, xscale, yscale, px, py, kwargs, got, scale=0.0):
+    """Executable defect model of M_TWO_POSITIONS: does it reproduce the observed output?
+    (`scale`: magnitude of the correct density - differences between subnormal numbers far
+    below it are rounding noise of exp())"""
     xs, ys = K.scale(x, xscale), K.scale(y, yscale)
     bad = K.invalid(xs) | K.invalid(ys)
     pxs, pys = K.scale(np.ravel(px), xscale), K.scale(np.ravel(py), yscale)
@@ -366,6 +382,7 @@ def _two_positions_explains(x, y, xscale, yscale, px, py, kwargs, got):
         return None
     full = np.full(pxs.shape, np.nan)
     full[~pbad] = pred
+    full = K._with_floor(full, scale)
     got = np.ravel(np.asarray(got, dtype=np.float64))
     if got.shape == full.shape and K.close_density(got, full, tol=1e-8) is None:
         return K.M_TWO_POSITIONS
@@ -403,7 +420,7 @@ def _judge_contour(ctx, rec):
     if problem is not None and kde == "multivariate" and wx.size == 2:
         gxs = K.scale(np.ravel(wx), "linear")
         finding = _two_positions_explains(x, y, p["xscale"], p["yscale"], gxs, np.ravel(wy),
-                                          p["kde_kwargs"], gz)
+                                          p["kde_kwargs"], gz, _peak(wz))
     ctx.check("kde_contour.reference", problem is None,
               lambda: _wit({"params": _short(p), "n_selected": int(sel.sum()), "x_selected": x,
                             "y_selected": y, "got": gz, "reference": wz}),
